@@ -5,7 +5,7 @@ from .c02 import HI_MEM
 
 def clause_filter(c, v, e):
     # every exactly-specified step is checked for PC, LR, T (and the rest of the state) here
-    return v['path'].startswith('exact') and c not in ('hosterror', 'range', 'confine', 'nop-on-condfail')
+    return v['path'].startswith('exact') and c not in ('range', 'confine', 'nop-on-condfail')
 
 
 def run(ctx):
